@@ -275,6 +275,9 @@ def gen_wf_history(hseed: str) -> dict[str, Any]:
     'database is locked', how the driver is paced against the writer, and how soon disconnect() follows the last request"""
     rng = random.Random("wf/" + hseed)
     n = rng.choice([1, 1, 2, 2, 3, 4, 6, rng.randint(1, 10)])
+    long_run = rng.random() < 0.12
+    if long_run:
+        n = rng.randint(14, 25)  # a long run in which many rows meet a transient fault once (each followed by successful writes)
     max_retry = rng.randrange(3)
     exs: list[Ex] = []
     for i in range(n):
@@ -287,7 +290,11 @@ def gen_wf_history(hseed: str) -> dict[str, Any]:
     logged = sum(1 for e in exs if e.implicit)
     plan: dict[str, int] = {}
     k = rng.random()
-    if k < 0.55:
+    if long_run:
+        for r in range(logged):
+            if rng.random() < 0.75:
+                plan[str(r)] = rng.choice([1, 1, 2])
+    elif k < 0.55:
         plan[str(logged - 1)] = rng.choice([1, 2, 2, 3, 3])
     elif k < 0.65:
         plan[str(logged - 1)] = rng.choice([2, 3])
@@ -977,6 +984,22 @@ async def run_scan_batch(ctx: Any, batch: list[tuple[dict[str, Any], str]], scra
     runs: list[dict[str, Any]] = []
     orig_load_ecu = guds.load_ecu
     guds.load_ecu = lambda vendor: d["ecu"]  # type: ignore[assignment]
+    # fault injection at the library boundary: for every second run of the batch the final UPDATE of the run_meta row fails once with
+    # 'database is locked' (as under contention by another writer). The statement still demands every completed exchange in the file.
+    import aiosqlite
+    from gallia.db.handler import DBHandler
+
+    failing_paths: set[str] = set()
+    orig_complete = DBHandler.complete_run_meta
+
+    async def complete_run_meta(self: Any, *a: Any, **kw: Any) -> Any:
+        if str(self.path) in failing_paths:
+            failing_paths.discard(str(self.path))
+            ctx.reach("scanner.run_meta-update-failed-once")
+            raise aiosqlite.OperationalError("database is locked")
+        return await orig_complete(self, *a, **kw)
+
+    DBHandler.complete_run_meta = complete_run_meta  # type: ignore[method-assign]
     try:
         with dh.TransportLoaders() as loaders:
             for n, (plan, start) in enumerate(batch):
@@ -990,6 +1013,8 @@ async def run_scan_batch(ctx: Any, batch: list[tuple[dict[str, Any], str]], scra
                 d["scanner"].pending = {"start": start, "main": plan["main"]}
                 scanner = d["scanner"](config)
                 holder["s"] = scanner
+                if n % 2 == 1:
+                    failing_paths.add(str(path))
                 runs.append({"plan": plan, "start": start, "path": path, "tr": tr, "scanner": scanner})
             try:
                 codes = await asyncio.wait_for(asyncio.gather(*(r["scanner"].entry_point() for r in runs), return_exceptions=True), SCAN_GUARD_S)
@@ -997,6 +1022,19 @@ async def run_scan_batch(ctx: Any, batch: list[tuple[dict[str, Any], str]], scra
                 raise RuntimeError(f"scanner batch {tag} did not finish within {SCAN_GUARD_S}s: {[r['plan']['hseed'] + '/' + r['start'] for r in runs]}") from None
     finally:
         guds.load_ecu = orig_load_ecu  # type: ignore[assignment]
+        DBHandler.complete_run_meta = orig_complete  # type: ignore[method-assign]
+    # entry_point() has returned: the database must be closed (queue joined, committed). A handler that is still connected means
+    # the run ended without flushing its rows; it is closed by force here so that its worker thread cannot keep the process alive.
+    for r in runs:
+        h = r["scanner"].db_handler
+        if h is not None and getattr(h, "connection", None) is not None:
+            pending = h._execute_queue.qsize() if getattr(h, "_execute_queue", None) is not None else None
+            ctx.violation("db/not-closed-after-run/run_meta-update-failed" if str(r["path"]) not in failing_paths and r is not None and runs.index(r) % 2 == 1 else "db/not-closed-after-run",
+                          "entry_point() returned but the database handler was never disconnected: queued rows are not written",
+                          {"family": "scanner", "hseed": r["plan"]["hseed"], "start": r["start"], "rows_still_queued": pending})
+            await dh.force_close(h)
+            r["leaked"] = True
+    dh.stop_leaked_connections()
     lost = catch.take_lost()
     try:
         if lost:
